@@ -8,6 +8,10 @@
 (*    [op |-> "write", p, cfg, done]      cfg_write(cfg) in process p; done = 1: the call returned, *)
 (*                                        done = 0: the process DIED inside the call (SIGKILL at an *)
 (*                                        arbitrary point of the code)                              *)
+(*    [op |-> "begin", p, cfg]            cfg_write(cfg) has begun in process p and is PAUSED at an  *)
+(*                                        arbitrary point of the code (SIGSTOP) - others act meanwhile  *)
+(*    [op |-> "end", p, cfg, done]        it was let go on and returned (done = 1), or was killed while  *)
+(*                                        paused (done = 0)                                             *)
 (*    [op |-> "read", p, ok, cfg]         cfg_read() in process p: ok = 1 and the configuration     *)
 (*                                        returned, or ok = 0: it raised                            *)
 (* cfg = sequence of <<key, value>> in key order; value 0 = a value that cannot be serialised.      *)
@@ -33,6 +37,8 @@ TWrite(e) == IF e.done = 1 /\ SerOK(e.cfg) /\ Target # 0
                   /\ maybe' = [maybe EXCEPT ![Target] = {}]
                   /\ view' = [view EXCEPT ![e.p] = e.cfg]
              ELSE LawBegin(e.p, e.cfg)                                  \* died inside, or could not be carried out
+TBegin(e) == LawBegin(e.p, e.cfg)
+TEnd(e)   == IF e.done = 1 /\ SerOK(e.cfg) /\ Target # 0 THEN LawComplete(e.p, e.cfg) ELSE LawSame
 TRead(e)  == /\ Report(JudgeRead(e))
              /\ IF e.ok = 1 THEN LawGiven(e.p, e.cfg) ELSE LawSame
 
@@ -45,6 +51,8 @@ Next == /\ l < Len(Obs[c].events)
         /\ LET e == Ev(c, l + 1) IN
               \/ e.op = "spawn" /\ TSpawn(e)
               \/ e.op = "write" /\ TWrite(e)
+              \/ e.op = "begin" /\ TBegin(e)
+              \/ e.op = "end"   /\ TEnd(e)
               \/ e.op = "read"  /\ TRead(e)
         /\ l' = l + 1 /\ c' = c
         /\ UNCHANGED <<disk, proc, out>>
